@@ -43,6 +43,8 @@ def run(ch: Checker) -> None:
     ch.rule('C07.2b', 'BaseTcpServerHandler.handle_writables: `teardown = True` and clearing must_flush_before_shutdown only after the flush, under must_flush_before_shutdown and an empty buffer', 2)
     ch.rule('C07.3', 'HttpProtocolHandler.shutdown (threaded mode): with a selector and pending output, _flush() runs before the client socket is shut down or closed; '
                      '_flush loops `while has_buffer()` around flush()', 2)
+    ch.rule('C07.7', 'output queued for the UPSTREAM is written when its descriptor is writable: every method that tests `upstream fd in writables` calls upstream.flush() on the paths where that holds '
+                     '(HttpProxyPlugin.write_to_descriptors, TcpUpstreamConnectionHandler.write_to_descriptors, BaseTcpTunnelHandler.handle_events)', 3)
     ch.rule('C07.4', 'is_inactive returns True only with an empty client buffer; Threadless._cleanup is called only from the enumerated sites', 2)
 
     # ---------------- C07.1
@@ -63,7 +65,7 @@ def run(ch: Checker) -> None:
         if isinstance(rv, ast.Constant) and not rv.value:
             continue
         n_true += 1
-        facts = p.facts(ridx)
+        facts = list(allfacts(p, ridx).items())
         # (a) buffer empty established after the last queue/flush on the path
         last_buf_test = max([i for i, (nid, lab) in enumerate(p.steps[:ridx]) if g.nodes[nid].kind == 'test' and norm(g.nodes[nid].ast) == HASBUF and lab is False] or [-1])
         cause = None
@@ -272,6 +274,10 @@ def run(ch: Checker) -> None:
     extra = callers - allowed
     ch.check(not extra and callers, 'C07.4', prog.own_method('Threadless', '_cleanup'), 'who may tear a work down',
              '_cleanup called from %s' % sorted(callers), 'a new caller tears works down outside the enumerated reasons (task teardown, idle reaping, init failure, broken event refresh): %s' % sorted(extra))
+    # ---------------- C07.7 upstream side
+    from .common import upstream_flush_check
+    upstream_flush_check(ch, 'C07.7')
+
     # ---------------- C07.5 / C07.6 (shared)
     ch.import_rules('C01', {'C01.2': 'C07.5', 'C01.3': 'C07.6'}, 'output is delivered once and completely only if flush removes exactly what was sent and the counter that has_buffer() reads agrees with the queue')
 
